@@ -270,6 +270,39 @@ def special_lattices(rec, rng):
     if ok:
         N = ml.N_sites
         rec.check(N == 12 and all(int(ml.lat2mps_idx(ml.mps2lat_idx(i))) == i for i in range(N)), 'MultiSpeciesLattice:index-maps', '')
+    # every simple lattice (also with several sites per unit cell) x 2-3 species: each site of the multi-species lattice sits at
+    # the position of its simple-lattice site, every derived pair list has the Euclidean distance of the list it comes from
+    for sname, mk in (('Chain', lambda: Lt.Chain(4, None, bc='periodic')), ('Ladder', lambda: Lt.Ladder(3, None, bc='periodic')),
+                      ('Square', lambda: Lt.Square(3, 3, None, bc='periodic')), ('Honeycomb', lambda: Lt.Honeycomb(3, 3, None, bc='periodic')),
+                      ('Kagome', lambda: Lt.Kagome(3, 3, None, bc='periodic')), ('Triangular', lambda: Lt.Triangular(3, 3, None, bc='periodic'))):
+        for nsp in (2, 3):
+            inp = {'simple_lattice': sname, 'species': nsp}
+            rec.begin(f'C19 MultiSpeciesLattice {inp}')
+            simple = mk()
+            names = ['A', 'B', 'C'][:nsp]
+            ok, ml = rec.guarded('MultiSpeciesLattice:exception', lambda: Lt.MultiSpeciesLattice(simple, [FermionSite('N')] * nsp, names), inp)
+            rec.case(('multispecies', sname, nsp), True, sample=inp if sname == 'Honeycomb' and nsp == 2 else None)
+            if not ok:
+                continue
+            Lu = len(simple.unit_cell)
+            good = len(ml.unit_cell) == Lu * nsp
+            for u in range(len(ml.unit_cell)):
+                su, sp = int(ml.self_u_to_simple_u(u)), int(ml.self_u_to_species_idx(u))
+                good = good and (su, sp) == (u // nsp, u % nsp) and int(ml.simple_u_to_species_u(su, sp)) == u
+                x = [1] * simple.dim
+                good = good and np.allclose(ml.position(np.array(x + [u])), simple.position(np.array(x + [su])))
+            rec.check(good, 'MultiSpeciesLattice:positions-and-species-maps', 'site u is not at the position of simple site u // N_species', inp)
+            for key, val in ml.pairs.items():
+                base = key.rsplit('_', 1)[0]
+                if base == 'onsite':
+                    target = 0.
+                elif base in simple.pairs and simple.pairs[base]:
+                    u1, u2, dx = simple.pairs[base][0]
+                    target = simple.distance(u1, u2, dx)
+                else:
+                    continue
+                bad = [(u1, u2, list(dx)) for u1, u2, dx in val if abs(ml.distance(u1, u2, np.asarray(dx)) - target) > 1e-9]
+                rec.check(not bad, 'MultiSpeciesLattice:pair-distance', f'pairs[{key!r}]: {bad[:3]} not at distance {target}', dict(inp, key=key))
     # helical
     for Lx, Ly in [(2, 3), (3, 2)]:
         rec.begin(f'C19 HelicalLattice Square({Lx},{Ly})')
